@@ -28,11 +28,123 @@ def prop(pid, built, legs_quick, legs_thorough, technique, level_text, level_not
     }
 
 
+F = ["fast"]
+MIRI = ["fast", "checked", "miri"]
+
+NOTE_ORACLE = ("Trusts the rules-of-poker oracle in monitor/src/model.rs (self-checked at the start of every leg: 7462 classes, category populations, endpoints; "
+               "direct 6/7-card evaluation cross-checked against min over 5-subsets) and rustc on this target; says nothing about other targets or compilers.")
+NOTE_LAYOUT = ("Trusts the documented bit layout as transcribed in monitor/src/model.rs (52 words, O(1) decode-and-rebuild membership test self-checked against the 52-word list) "
+               "and rustc on this target.")
+NOTE_MODEL = "Trusts the small executable model written from the property statement (monitor/src/model.rs and the monitor itself) and rustc on this target."
+
 prop("C01", True, BOTH, BOTH,
      "runtime reference-model monitor over the exhaustive input space (all 2,598,960 hands x slot orders x 6 entry points), two build profiles",
      "Every five-card subset of the deck is driven through all six five-card entry points of the compiled crate and each result is compared "
      "with an independent rules-of-poker ordinal; quick uses 6 slot orders per hand, thorough all 120, so thorough closes the stated quantifier. "
-     "The monitor also observes that all 7462 values are produced and how many cells of each lookup table were exercised.",
-     "Trusts the oracle in monitor/src/model.rs (self-checked: 7462 classes, category populations, endpoints) and rustc/this target; "
-     "says nothing about other targets or compilers.",
-     "DESIGN.md section 5, C01")
+     "The monitor also observes that all 7462 values are produced and how many cells of each lookup table were exercised (1287/1287/4888).",
+     NOTE_ORACLE, "DESIGN.md section 5, C01")
+prop("C02", True, F, BOTH,
+     "runtime reference-model monitor over all 20,358,520 six-card and all 133,784,560 seven-card subsets, plus a row-targeting workload for the slot tables",
+     "Every 6- and 7-subset of the deck (canonical slot order) is ranked by the compiled crate and compared with a direct rule-based evaluation of the best hand; "
+     "seeded slot orders, all four entry points on a seeded share, and for every class x every five-slot row a hand whose uniquely best sub-hand sits exactly in that row. "
+     "Exhaustive in the subset dimension; other slot orders are sampled (stated limit).",
+     NOTE_ORACLE, "DESIGN.md section 5, C02")
+prop("C03", True, F, BOTH,
+     "runtime invariant monitor on the reported witness hand over all 5/6/7-card subsets (membership, distinctness, descending order, re-ranking)",
+     "For every 6- and 7-subset the (value, hand) pair returned by the crate is checked: five distinct input cards, strictly descending words, re-ranking through the crate and "
+     "through the rules oracle gives the reported value; for every five-card hand the reported hand is the input unchanged. Exhaustive over subsets; extra slot orders seeded.",
+     NOTE_ORACLE, "DESIGN.md section 5, C03")
+prop("C04", True, BOTH, BOTH,
+     "runtime oracle monitor: all 2^32 words through one slot, every slot-equality pattern x word-class mix for sizes 2..7, all card-or-blank arrays of sizes 2..4(5), two build profiles",
+     "is_valid and the validated ranking entry points are compared with 'every word is one of the 52 and all slots differ' on: every 32-bit word in a slot, every word within Hamming "
+     "distance 2 of a card in every slot of every size, every set partition of the slots with every mix of card/blank/near-miss/arbitrary words, all ordered card-or-blank arrays of "
+     "sizes 2..4 (5 in thorough), every valid five-card hand and seeded hands. Whole hands over arbitrary words are an infinite-like space: reached structurally, not exhaustively.",
+     NOTE_LAYOUT, "DESIGN.md section 5, C04")
+prop("C05", True, BOTH, MIRI,
+     "runtime panic/hang monitor (catch_unwind + watchdog) over all card-or-blank multisets of sizes 5..7 and every product-search key, in both build profiles; Miri smoke leg",
+     "Every five- and six-slot multiset over {52 cards, blank} and a seeded share (thorough: all) of the seven-slot ones go through five ranking entry points under catch_unwind "
+     "with a per-call hang watchdog, in the release and the overflow-checked build; Five::find_in_products is called on every key 0..=104,618,693 and on boundary/seeded keys up to usize::MAX; "
+     "blank fives must rank 0/Invalid. This is the check that found defect D1.",
+     "Trusts catch_unwind/the watchdog to observe abnormal termination, and rustc on this target; the two profiles are the 'configurations' of the property.",
+     "DESIGN.md section 5, C05")
+prop("C06", True, F, BOTH,
+     "runtime reference-model monitor: all 65,536 values and all 2,598,960 hands, names derived from the rules key by the variant-name grammar",
+     "HandRank::from is checked on every 16-bit value (value, category, class, Invalid exactly outside 1..=7462, self-consistency, helpers, default) against class names derived "
+     "from the rules; the 309 classes must each cover one contiguous non-empty range; hand_rank()/hand_rank_validated() of every five-card hand and of seeded six/seven-card hands "
+     "must name the category and class of the actual cards.",
+     NOTE_ORACLE, "DESIGN.md section 5, C06")
+prop("C07", True, F, BOTH,
+     "runtime order-law monitor over all 2^32 ordered pairs with an integer-key embedding that settles transitivity on all triples",
+     "All 65,536 x 65,536 ordered pairs of converted ranks are compared: antisymmetry, Equal iff ==, stronger-is-greater, invalid-below-valid, partial_cmp and the four operators, "
+     "and agreement with an integer key computed from the crate's own cmp (so the order is transitive on all 2^48 triples). The two enumerations are checked on all value pairs. "
+     "Exhaustive. This is the check that found defect D2.",
+     "Trusts only integer comparison and rustc on this target.", "DESIGN.md section 5, C07")
+prop("C08", True, F, BOTH,
+     "runtime metamorphic monitor: model shift per slot, all 24 suit relabellings of every five-card hand, three shifts of every six-card and (thorough: every) seven-card hand",
+     "shift_suit is compared slot-wise with the model shift on cards, blank and containers of every size; the value of every five-card hand must be unchanged under all 24 suit "
+     "relabellings, and of every six-card hand and a seeded quarter (thorough: all) of the seven-card hands under the crate's three non-trivial shifts.",
+     NOTE_LAYOUT, "DESIGN.md section 5, C08")
+prop("C09", True, F, BOTH,
+     "runtime metamorphic monitor (no oracle): v7 vs its seven v6, v6 vs its six v5, sub-hands made by slot deletion",
+     "For every six-card subset and a seeded quarter (thorough: all 133,784,560) of the seven-card subsets the larger hand's value must be <= every sub-hand's and equal to the minimum; "
+     "half of the hands are presented in a seeded slot order. Independent of the oracle used by C01/C02, so it also guards against a shared blind spot.",
+     "Trusts nothing but the crate's own values and integer comparison.", "DESIGN.md section 5, C09")
+prop("C10", True, BOTH, BOTH,
+     "runtime reference-model monitor: all 2^32 words through the card filter, 52 constants, 70 constructor pairs, all accessors, two build profiles",
+     "Every 32-bit word goes through both filter entry points against a decode-and-rebuild membership test (exactly 52 must pass); the 52 named constants, the deck and create(rank, suit) "
+     "for all 14 x 5 member pairs must equal the documented layout word; every accessor is read back on every card (characters checked semantically). Exhaustive.",
+     NOTE_LAYOUT, "DESIGN.md section 5, C10")
+prop("C11", True, BOTH, MIRI,
+     "runtime reference-model monitor: 52x52 card order, sorting vs an independent insertion sort on all arrangements of a hostile 8-word alphabet plus seeded hands; Miri smoke leg",
+     "Integer order of the crate's card words is compared with rank-then-suit on all pairs; sort()/sort_in_place() of every size are compared with the harness's own descending insertion "
+     "sort (same multiset, non-increasing, idempotent, receiver untouched, both forms agree) on every arrangement over {0, 1, two jacks, flagged card, 0x7FFFFFFF, 0x80000000, 0xFFFFFFFF} "
+     "and on seeded arbitrary-word and card-or-blank hands.",
+     NOTE_MODEL, "DESIGN.md section 5, C11")
+prop("C12", True, BOTH, MIRI,
+     "runtime reference-model monitor: all 1,112,064 Unicode scalars through the symbol tables, structured and seeded texts through every parser under catch_unwind; Miri smoke leg",
+     "Every scalar value goes through both symbol tables and sits as first/second character of a token; all pairs over an alphabet of symbols, separators and multi-byte/combining "
+     "characters with six tails, hand texts with 0..9 tokens for each Unicode white-space separator, and seeded texts go through from_index, get_rank_and_suit, five_from_index, the six "
+     "TryFrom<&str> parsers and BinaryCard::from_index against two explicit symbol sets and the harness's own tokenizer. All strings is an infinite space: tails are sampled.",
+     NOTE_MODEL, "DESIGN.md section 5, C12")
+prop("C13", True, F, BOTH,
+     "runtime reference-model monitor: four predicates on all 2,598,960 hands vs suits/ranks by the rules and vs the ranked category",
+     "is_flush / is_straight / is_straight_flush / is_wheel of every five-card hand (quick: two slot orders, thorough: all 120) are compared with the rules-based category and with "
+     "hand_rank().name, and the deprecated free functions with the methods. Exhaustive. This is the check that found defect D3 (58,824 paired hands with a rank span of five).",
+     NOTE_ORACLE, "DESIGN.md section 5, C13")
+prop("C14", True, F, BOTH,
+     "runtime reference-model monitor: all 2^32 words word->bit, all 1/2(/3)-bit and seeded 64-bit values bit->word, 104 constants",
+     "from_ckc is compared with 1<<(51-i) for card i / 0 otherwise on every 32-bit word; from_binary_card on every one- and two-bit value (three-bit in thorough), structured sets and "
+     "seeded values of every population count; DECK and the 52 named bit constants against the deck order; round trips through the crate.",
+     NOTE_LAYOUT, "DESIGN.md section 5, C14")
+prop("C15", True, F, BOTH,
+     "runtime model-based history monitor: peel sequences to exhaustion vs bit arithmetic; set algebra on structured and seeded sets; hands and texts to sets",
+     "Sets built from hands (all ordered hands of sizes 2-3, seeded hands with blanks, duplicates and near-miss words for 4-7) and from texts are compared with the OR of model bits; "
+     "fold_in/has/count/single/valid with plain u64 arithmetic on a structured family pairwise and on seeded sets of every population count; every set is peeled to exhaustion plus "
+     "three calls and each event compared with 'highest remaining card bit, only that bit cleared, overflow bits untouched'. 2^64 sets are sampled, not enumerated.",
+     NOTE_MODEL, "DESIGN.md section 5, C15")
+prop("C16", True, BOTH, BOTH,
+     "runtime reference-model monitor over all one-/two-(three-)bit sets and seeded sets of every population count, under catch_unwind, two build profiles",
+     "Two::try_from(BinaryCard) is compared with a descending-bit-scan model (Ok with the two cards in deck order and round trip, NotEnoughCards, TooManyCards, InvalidBinaryFormat) on "
+     "0, all 64 one-bit and 2,016 two-bit values (41,664 three-bit in thorough), boundary sets and seeded sets of every population count.",
+     NOTE_MODEL, "DESIGN.md section 5, C16")
+prop("C17", True, BOTH, BOTH,
+     "runtime reference-model monitor over all 2,652 ordered pairs, oracle in integer half-points, two build profiles",
+     "chen_formula and the six helpers are compared with an integer (half-point) implementation of Bill Chen's formula on every ordered pair of distinct cards, plus invariance under "
+     "slot swap and suit shift and the per-card points of all 52 cards; the evidence lists how many pairs hit each arm (gap class x suited x below-queen). Exhaustive.",
+     "Trusts the half-point oracle (self-checked on the published examples AA, AKs, AKo, TT, 7-5s, 22, 72o) and rustc on this target.", "DESIGN.md section 5, C17")
+prop("C18", True, F, BOTH,
+     "runtime invariant check at a quiescent point on constant data: every table entry vs the set of combinations it should enumerate",
+     "The deck (order, completeness, Deck::get in range and on every index class past the end), the six preset starting-hand tables (exact combination sets, no duplicates, higher rank "
+     "first, AKs u AKo = AK) and the three slot-index tables (exactly C(4,2), C(6,5), C(7,5), rows increasing, no repeats) are checked entry by entry. Exhaustive for the tables.",
+     NOTE_LAYOUT, "DESIGN.md section 5, C18")
+prop("C19", True, F, MIRI,
+     "runtime history monitor against an array model, compared after every operation, unique words per history; all 6^5 and 7^5 selection tuples; Miri smoke leg",
+     "Directed histories per size and constructor form and seeded 40-operation histories (set, rebuild through any constructor, copy-and-scribble, reconstruct) over Two..Seven are "
+     "compared with a plain array after every step through all accessors, to_arr and iter; every one of the 27 setters, 27 accessors and 18 constructor forms must be observed; "
+     "five_from_permutation is checked on every in-range index tuple. Histories are sampled, not enumerated.",
+     NOTE_MODEL, "DESIGN.md section 5, C19")
+prop("C20", True, F, BOTH,
+     "runtime reference-model monitor: 52 cards x all 121 mark sequences, accessors, strip, order vs all unmarked and marked words",
+     "Every card under every sequence of up to four marks (every subset in every order, with repeats) must equal card | marks<<29, read back the same fields and characters, strip to "
+     "the original and sort above every unmarked card with quads > trips > pair against all 52 x 7 other marked words. Exhaustive.",
+     NOTE_LAYOUT, "DESIGN.md section 5, C20")
